@@ -21,18 +21,6 @@ static Vector vec3(vh::Reader& r)
 	double a = r.num(), b = r.num(), c = r.num();
 	return Vector({a, b, c});
 }
-// which branch of Spherical_Coordinates(r,theta,phi,axis) the call takes, recomputed here only for the
-// non-triviality statistics (0 plain, 1 antiparallel, 2 general); not part of the compared behaviour's logic
-static int branch(const Vector& axis)
-{
-	Vector ev  = axis.Normalized();
-	double aux = sqrt(ev[0] * ev[0] + ev[1] * ev[1]);
-	if(axis.Norm() == 0.0 || (aux == 0.0 && ev[2] > 0.0))
-		return 0;
-	else if(aux == 0.0)
-		return 1;
-	return 2;
-}
 static void handler(vh::Reader& r, vh::Out& o)
 {
 	std::string op = r.word();
@@ -68,7 +56,6 @@ static void handler(vh::Reader& r, vh::Out& o)
 		double rr = r.num(), th = r.num(), ph = r.num();
 		Vector axis(r.list());
 		put_vec(o, Spherical_Coordinates(rr, th, ph, axis));
-		o.i(branch(axis));
 	}
 	else if(op == "sphad")
 	{
